@@ -141,6 +141,17 @@ fn push_tree(cx: &mut Cx, inp: &[u8], known: bool, layers: &[Layer], budget: usi
 	r
 }
 
+/// the encoding of a Tree against the model's encoder (budget: one frame per encoded byte suffices)
+fn push_tree_enc(cx: &mut Cx, v: &Tree) {
+	let enc = v.encode();
+	cx.oracle.check(enc.len() == v.encoded_size() && v.using_encoded(|s| s == &enc[..]), "entry-point:size/using_encoded", || format!("Tree {}", v.val()));
+	let term = format!("(GRecEnc {} {} {} {})", Tree::rdef(), enc.len() + 2, v.val(), blist(&enc));
+	cx.stats.bump("tree/enc");
+	if cx.cases.push(term, format!("Tree\ttreeenc\t{}", hex(&enc)), true) && enc.len() < 24 {
+		cx.stats.sample(format!("Tree: {} encodes to {}", v.val(), hex(&enc)));
+	}
+}
+
 fn tree_inputs(cx: &mut Cx, nv: usize, nm: usize) -> Vec<(Vec<u8>, &'static str)> {
 	let mut out = vec![];
 	let mut prev: Vec<u8> = vec![];
@@ -212,10 +223,17 @@ pub fn deep_main(a: &[String]) {
 pub fn run(cx: &mut Cx) {
 	let t = cx.thorough;
 	match cx.mode {
+		Mode::C01 | Mode::C07 => {
+			for _ in 0..(if t { 200 } else { 30 }) {
+				let v = Tree::gen(&mut cx.rng, 0);
+				push_tree_enc(cx, &v);
+			}
+		},
 		Mode::C02 => {
 			for _ in 0..(if t { 200 } else { 30 }) {
 				let v = Tree::gen(&mut cx.rng, 0);
 				let enc = v.encode();
+				push_tree_enc(cx, &v);
 				let k = cx.rng.below(4) as usize;
 				let mut inp = enc.clone();
 				inp.extend(cx.rng.bytes(k));
@@ -360,6 +378,12 @@ pub fn run(cx: &mut Cx) {
 
 /// replay of one Tree case (`--only`)
 pub fn replay(cx: &mut Cx, only: &[String]) {
+	if only[1] == "treeenc" {
+		if let Ok(v) = Tree::decode(&mut &unhex(&only[2])[..]) {
+			push_tree_enc(cx, &v);
+		}
+		return;
+	}
 	let layers = crate::gen::parse_layers(&only[3]);
 	push_tree(cx, &unhex(&only[5]), only[2] == "1", &layers, only[4].parse().unwrap(), "replay");
 }
